@@ -124,6 +124,7 @@ class C05(Check):
     rule = ("every cell (operator in 16 binary operators, left kind, right kind in {int,bigint,float,byte}, left value, "
             "right value from the per-kind boundary sets), operands reaching the operator through run-time variables and - for 2 (thorough 3) values per kind - "
             "through 8 other carriers (literal operands evaluated by the compiler, list element, object field incl. inside a method, parameter, captured variable, function result, map value, unwrapped optional); "
+            "two cells of one operator on the same digits but other operand kinds, one after the other in ONE program (the second must behave as it does alone); "
             "the five arithmetic operators also as OP-ASSIGNMENT onto a variable, a list element, an object field, a map entry and a captured variable (8 values per kind, cells whose promoted kind is the target's kind); "
             "unary minus on every int/bigint/float value and `!` on both booleans.  Non-trivial = the compiler accepts the "
             "cell; distinct = distinct (op, kinds, values).")
@@ -171,11 +172,23 @@ class C05(Check):
                     for car in OPASSIGN_CARRIERS:
                         yield ("car", car) + c[1:]
 
-        ls = [("L0-unary", list(unary())), (f"L1c-op-assignment-onto-variable-element-field-map-entry-captured-{min(nv, 8)}-values", opassigned(min(nv, 8))), ("L1-3-values", list(cells(3))), ("L1b-values-through-8-carriers", carried(3 if tier == "thorough" else 2)),
+        def pairs():
+            # two cells with the SAME operator and the same digits but other operand kinds, one after the other in one program
+            small = {k: [i for i, v in enumerate(N.VALUES[k]) if v in (1, 2, 1.5, 0.5)][:2] for k in KINDS}
+            for op in OPS:
+                combos = [(lk, rk) for lk in KINDS for rk in KINDS]
+                for c1 in combos:
+                    for c2 in combos:
+                        if c1 != c2:
+                            yield ("pair", op, c1, c2)
+
+        ls = [("L0-unary", list(unary())), ("Lq-two-cells-of-one-operator-in-one-program", list(pairs()) if tier == "thorough" else list(pairs())[::4]), (f"L1c-op-assignment-onto-variable-element-field-map-entry-captured-{min(nv, 8)}-values", opassigned(min(nv, 8))), ("L1-3-values", list(cells(3))), ("L1b-values-through-8-carriers", carried(3 if tier == "thorough" else 2)),
               (f"L2-{nv}-values", cells(nv))]
         return ls
 
     def describe(self, case):
+        if case[0] == "pair":
+            return {"op": case[1], "first kinds": list(case[2]), "then kinds": list(case[3])}
         if case[0] == "un":
             v = N.VALUES[case[2]][case[3]] if case[2] != "bool" else bool(case[3])
             d = {"op": case[1], "kind": case[2], "value": repr(v)}
@@ -188,7 +201,34 @@ class C05(Check):
         _, op, lk, a, rk, b = case
         return {"op": op, "lkind": lk, "lvalue": repr(N.VALUES[lk][a]), "rkind": rk, "rvalue": repr(N.VALUES[rk][b])}
 
+    def run_pair(self, case):
+        _, op, (lk1, rk1), (lk2, rk2) = case
+
+        def val(k, which):
+            vs = [v for v in N.VALUES[k] if v in ((2, 1.5) if which == 0 else (1, 0.5))] or [v for v in N.VALUES[k] if v in (1, 2)]
+            return vs[0]
+        p1 = cell_program(op, lk1, val(lk1, 0), rk1, val(rk1, 1))
+        p2 = cell_program(op, lk2, val(lk2, 0), rk2, val(rk2, 1))
+
+        def fn(name, text):
+            return f"{name} = fn() {{\n" + "".join("\t" + l + "\n" for l in text.rstrip("\n").split("\n")) + f"}}\n{name}()\n"
+        env = {"MSCRIPT_VERIF_TYPED_PRINT": "1"}
+        r1 = driver.run_ms(fn("cella", p1), env=env)
+        r2 = driver.run_ms(fn("cella", p2), env=env)
+        if r1.exit != 0 or driver.compile_rejected(r2):
+            return {"outcome": "pair-skip", "nontrivial": False, "tags": ["pair-skip"]}
+        src = fn("cella", p1) + fn("cellb", p2)
+        rp = driver.run_ms(src, env=env)
+        viol = []
+        if rp.lines() != r1.lines() + r2.lines() or (rp.exit == 0) != (r2.exit == 0):
+            viol.append({"sig": {"kind": "context-dependent", "op": op, "lkind": lk2, "rkind": rk2, "after": f"{lk1},{rk1}"},
+                         "what": f"{lk2} {op} {rk2} evaluated after {lk1} {op} {rk1} on the same digits in one program: alone {r2.lines()} (exit {r2.exit}), after the other cell {rp.lines()[len(r1.lines()):]} (exit {rp.exit})",
+                         "detail": {"files": {"x.ms": src}, "res": rp.brief(), "alone": r2.brief()}})
+        return {"outcome": "pair-ok" + ("-DIFF" if viol else ""), "viol": viol, "nontrivial": True, "tags": ["pair", f"op{op}"]}
+
     def run_case(self, case):
+        if case[0] == "pair":
+            return self.run_pair(case)
         desc = self.describe(case)
         if case[0] == "un":
             _, op, k, ai = case[:4]
